@@ -13,7 +13,7 @@ import (
 	"google.golang.org/grpc"
 )
 
-//verif:entry native tier=quick,thorough preempt=1 cover=default,percall,disabled,callerEarlier
+//verif:entry tier=quick,thorough preempt=1 cover=default,percall,disabled,callerEarlier
 //verif:doc zRPC client interceptor: default timeout and optional per-call timeout from {-1 s, 0, 1 ns, 0.5 s, 1 s, 3 s}, caller context with an optional deadline (0.25 s or 2 s); time.Time arithmetic is kept concrete; sequential (the client wrapper does not return early by design).
 func Verif_C04_ZrpcClient() {
 	durs := []int64{-int64(time.Second), 0, 1, int64(time.Second) / 2, int64(time.Second), 3 * int64(time.Second)}
